@@ -60,6 +60,19 @@ func init() {
 		l, err := integrate.ChangeExtendedSpatialIdsZoom(split(a[0]), atoi(a[1]), atoi(a[2]))
 		return setOrErrZ(l, err, 0, 35, atoi(a[1]), atoi(a[2]))
 	})
+	// chgbig: two related IDs refined far enough that the result has at least 65536 elements; the answer is summarised as
+	// "<length>:<number of distinct IDs>" (a result is de-duplicated as a whole, however long it is)
+	op("chgbig", func(a []string) string {
+		r, err := integrate.ChangeExtendedSpatialIdsZoom([]string{a[0], a[1]}, atoi(a[2]), atoi(a[3]))
+		if err != nil {
+			return "ERR"
+		}
+		m := make(map[string]struct{}, len(r))
+		for _, id := range r {
+			m[id] = struct{}{}
+		}
+		return fmt.Sprintf("%d:%d", len(r), len(m))
+	})
 	op("chgSp", func(a []string) string {
 		l, err := integrate.ChangeSpatialIdsZoom(split(a[0]), atoi(a[1]))
 		return setOrErrZ(l, err, 0, 35, atoi(a[1]))
@@ -196,6 +209,34 @@ func init() {
 			}
 			idl := maybeCorrupt(ids(l), 0.04)
 			do("chgExt", join(idl), s(H), s(V))
+		}
+	})
+	register("chgbig", func(n int) {
+		for i := 0; i < n; i++ {
+			h, v := int64(rng.Intn(28)), int64(rng.Intn(30))
+			e := randExtAt(h, v)
+			dh, dv := int64(6), int64(4) // 4^6 * 2^4 = 65536 results per input
+			if rng.Intn(2) == 0 {
+				dh, dv = 5, 6
+			}
+			var o ext
+			switch rng.Intn(3) {
+			case 0:
+				o = e // repeated
+			case 1: // a descendant: its results are a subset of the first element's
+				o = ext{h + 1, e.x<<1 + int64(rng.Intn(2)), e.y<<1 + int64(rng.Intn(2)), v + 1, e.f<<1 + int64(rng.Intn(2))}
+			default: // a sibling: disjoint
+				o = e
+				o.x ^= 1
+			}
+			if h == 0 && o.x != e.x {
+				o = e
+			}
+			ids := []string{e.id(), o.id()}
+			if rng.Intn(2) == 0 {
+				ids[0], ids[1] = ids[1], ids[0]
+			}
+			do("chgbig", ids[0], ids[1], s(h+dh), s(v+dv))
 		}
 	})
 	register("chgSp", func(n int) {
